@@ -128,8 +128,8 @@ Lemma views_follow a vst vst' o k j m' resid a' :
   write_target a vst vst' o k = Ok a' ->
   nth_error (hs a') k = Some (HCell (length (cells a))) /\
   nth_error (cells a') (length (cells a)) = Some (MS m') /\
-  forall q p lbl, q <> k -> nth_error (hs a) q = Some (HView j p lbl) -> in_indexer lbl (mphases m') = true ->
-              nth_error (hs a') q = Some (HView (length (cells a)) (if pmem lbl (mphases m') then lbl else swapcase lbl) lbl).
+  forall q p lbl, q <> k -> nth_error (hs a) q = Some (HView j p lbl) -> in_indexer lbl (bind_phases vst o m') = true ->
+              nth_error (hs a') q = Some (HView (length (cells a)) (if pmem lbl (bind_phases vst o m') then lbl else swapcase lbl) lbl).
 Proof.
   intros NH GV RB KA H. unfold write_target in H. rewrite GV in H. cbn [bind] in H. rewrite RB in H.
   destruct (write_back a k resid) as [a1|] eqn:WB; cbn [bind] in H; [|discriminate].
